@@ -686,3 +686,13 @@ Example explicit_pieces_instance :
   | Ok b => str_eqb b (report_text 2 x (trace_plines c 2 (x_frames x)) (snippet_plines c 2 RenderExamples.demo_frame))
   | Err _ => false end = true.
 Proof. vm_compute. repeat split; try reflexivity; lia. Qed.
+(* simple mode on the decorating output: the hypotheses of simple_report_visible_on_clikit_outputs, and the bytes computed *)
+Example simple_report_visible_instance :
+  clikit_output ansi_out /\ (o_indent ansi_out <= 0)%Z /\ no_esc RenderExamples.demo_msg /\
+  match render (RenderExamples.demo_cfg false) true ansi_out (RenderExamples.demo_x [RenderExamples.demo_frame]) with
+  | Ok b => str_eqb (strip_sgr b) (shown RenderExamples.demo_msg ++ [NL]) && Nat.ltb (length (shown RenderExamples.demo_msg ++ [NL])) (length b)
+  | Err _ => false end = true.
+Proof.
+  split; [split; [reflexivity|apply default_formatters_are_clikit; discriminate]|]. split; [cbn; lia|].
+  split; [repeat constructor; discriminate|vm_compute; reflexivity].
+Qed.
